@@ -284,6 +284,12 @@ def run(ctx):
     eng = cm.engine()
     ctx.verify(eng, cm.VERIFY, min_obligations={"hdl21.module:_add": 15, "hdl21.bundle:_add": 5})
     ctx.verify(cm.init_engine(), cm.VERIFY_INIT)
+    for key, obs, info in cm.decorator_loop_obligations():
+        for u in info.get("unsupported", []):
+            ctx.unsupported.append((key, u))
+        if len(obs) < 8 and not info.get("unsupported"):
+            ctx.checker_errors.append(f"only {len(obs)} class-body obligations for {key}")
+        ctx.discharge(obs, key + " [class-body entry: as the assignment obj.<key> = value]", info)
     ctx.assumptions.append("Inv_ns holds for Modules by induction over designer edits: established by Module.__init__ "
                            "(proved), preserved by add / __setattr__ / _add (proved); for Bundles the constructor is "
                            "not separately verified (all containers start empty)")
